@@ -252,6 +252,53 @@ impl Sub for ProcessHistory {
     }
 }
 
+/// keygen(seed) on threads that may use one CPU, two CPUs, three CPUs (with a small and a large
+/// stack) must give the bytes this process got on its ordinary threads: the result may depend on
+/// nothing but the seed, in particular not on how much parallelism the environment offers. Used
+/// for random seeds and for seeds on the generator's late-rejection path (first candidate
+/// unsolvable, or F, G out of range), where more than one candidate is examined.
+pub struct Environment;
+
+impl Sub for Environment {
+    type Case = RepeatCase;
+    fn name(&self) -> &'static str {
+        "keygen_environment"
+    }
+    fn max_shrink_iters(&self) -> u32 {
+        2
+    }
+    fn batch(&self) -> usize {
+        1
+    }
+    fn strategy(&self, _env: &Env) -> BoxedStrategy<RepeatCase> {
+        (prop_oneof![3 => Just(512usize), 1 => Just(1024usize)], crate::gen::seed_strategy()).prop_map(|(n, s)| RepeatCase { n, seed: seed_hex(&s), rejected_candidates: 0 }).boxed()
+    }
+    fn check(&self, c: &RepeatCase, st: &mut Stats) -> Result<(), Fail> {
+        let seed = seed_from(&c.seed).ok_or_else(|| Fail::new("harness:bad-replay", "seed must be 32 bytes"))?;
+        let n = c.n;
+        let here = api::key(n, seed);
+        for (cpus, stack) in [(1usize, 8usize << 20), (2, 64 << 20), (3, 4 << 20)] {
+            let got = crate::util::on_restricted_thread(cpus, stack, move || {
+                crate::engine::no_panic(|| {
+                    let (sk, pk) = api::keygen(n, seed);
+                    (sk.to_bytes(), pk.to_bytes())
+                })
+            });
+            match got {
+                None => st.count("environment_could_not_be_restricted(skipped)"),
+                Some(Err(p)) => return Err(Fail::new("keygen:panic-in-thread", format!("Falcon-{} key generation for seed {} panicked on a thread restricted to {} CPU(s): {}", n, hex(&seed), cpus, p))),
+                Some(Ok((sk, pk))) => {
+                    ensure!(sk == here.sk_bytes && pk == here.pk_bytes, "keygen:environment", "Falcon-{} key of seed {}: a thread restricted to {} CPU(s) (stack {} MiB) generates a different key than an unrestricted thread of the same process", n, hex(&seed), cpus, stack >> 20);
+                    st.count(&format!("generations_restricted_to_{}_cpu", cpus));
+                }
+            }
+        }
+        st.nontrivial(&(n, seed, "environment"));
+        st.sample("environment", || json!({"n": n, "seed": hex(&seed)}));
+        Ok(())
+    }
+}
+
 /// Number of candidates (f, g) the key generator's loop rejects with its cheap tests (range,
 /// invertibility of f, Gram-Schmidt norm) before the first one that passes them; replayed through
 /// the hooks. Only selects inputs.
@@ -531,7 +578,7 @@ const META: Meta = Meta {
 
 pub fn run(env: &Env, replay: Option<&Path>) -> i32 {
     let mut report = Report::new();
-    let subs: [&dyn DynSub; 6] = [&BitFlip, &History, &Repeat, &ProcessHistory, &ApiHistory, &RelatedSeeds];
+    let subs: [&dyn DynSub; 7] = [&BitFlip, &History, &Repeat, &ProcessHistory, &ApiHistory, &RelatedSeeds, &Environment];
     if let Some(p) = replay {
         if let Err(e) = replay_file(env, &subs, p, &mut report) {
             eprintln!("harness: {}", e);
@@ -563,6 +610,7 @@ pub fn run(env: &Env, replay: Option<&Path>) -> i32 {
     drive(env, &Repeat, env.tier.pick(8, 400), &mut report);
     drive(env, &ProcessHistory, env.tier.pick(6, 200), &mut report);
     drive(env, &RelatedSeeds, env.tier.pick(18, 400), &mut report);
+    drive(env, &Environment, env.tier.pick(6, 200), &mut report);
     drive(env, &ApiHistory, env.tier.pick(48, 1_000), &mut report);
     let covered: Vec<usize> = (0..256).filter(|b| report.stats.counters.contains_key(&format!("bit_position_covered_{:03}", b))).collect();
     report.extra.insert("seed_bit_positions_covered".into(), json!(covered.len()));
@@ -586,6 +634,56 @@ pub fn hunt_fgmax(n: usize, first: u64, count: u64, min: i64) {
                 let m = f.iter().chain(g.iter()).map(|x| x.abs()).max().unwrap_or(0);
                 if m >= min {
                     println!("{} {} {}", n, hex(&seed), m);
+                }
+            });
+        }
+    });
+}
+
+/// `fvh hunt-d7 <n> <first> <count>`: seeds whose first SOLVABLE candidate has an F or G
+/// coefficient at or beyond the limit of its 8-bit field (127 = largest accepted, 128.. = the key
+/// generator must move on to another candidate), found by replaying the candidate loop through the
+/// hooks. About one seed in 1500.
+pub fn hunt_d7(n: usize, first: u64, count: u64) {
+    use falcon_rust::verif_hooks::keygen_parts as kp;
+    use rand::SeedableRng;
+    let lim = (1i64 << (refimpl::params::params(n).fg_bits - 1)) - 1;
+    let next = std::sync::atomic::AtomicU64::new(0);
+    std::thread::scope(|sc| {
+        for _ in 0..16 {
+            sc.spawn(|| loop {
+                let i = next.fetch_add(1, std::sync::atomic::Ordering::Relaxed);
+                if i >= count {
+                    break;
+                }
+                let seed = crate::util::seed32(0xD7_0000_0000 + first + i);
+                let mut rng = rand::rngs::StdRng::from_seed(seed);
+                let mut unsolvable = 0;
+                for _ in 0..400 {
+                    let f = kp::gen_poly(n, &mut rng);
+                    let g = kp::gen_poly(n, &mut rng);
+                    if f.iter().chain(g.iter()).any(|x| (*x as i64).abs() > lim) {
+                        continue;
+                    }
+                    if refimpl::zq::evaluate_at_roots(&crate::util::to_i64(&f)).iter().any(|&x| x == 0) {
+                        continue;
+                    }
+                    if kp::gram_schmidt_norm_squared(&f, &g) > 1.3689 * 12289.0 {
+                        continue;
+                    }
+                    match kp::ntru_solve(&f, &g) {
+                        None => {
+                            unsolvable += 1;
+                            continue;
+                        }
+                        Some((cf, cg)) => {
+                            let (mx, mn) = (cf.iter().chain(cg.iter()).max().cloned().unwrap_or(0), cf.iter().chain(cg.iter()).min().cloned().unwrap_or(0));
+                            if mx >= 127 || mn <= -127 {
+                                println!("{} {} max={} min={} unsolvable_before={}", n, hex(&seed), mx, mn, unsolvable);
+                            }
+                            break;
+                        }
+                    }
                 }
             });
         }
